@@ -244,6 +244,30 @@ def gatherWith (look : Nat → List (List Lineage)) (hashvals : List Nat) : List
     (look h).foldl (fun asg lins =>
       if lins.isEmpty then asg else set asg h (updateSet ((get? asg h).getD []) lins)) asg) []
 
+/-- the answers of a list of in-memory databases for one hash (`lca_db.get_lineage_assignments(hashval)`
+    for `lca_db in dblist`) -/
+def lookDbs (dbs : List Db) (h : Nat) : List (List Lineage) :=
+  dbs.map (fun db => match db.getLineageAssignments h with
+    | .ok l => l
+    | .error _ => [])
+
+/-- `command_summarize.summarize(hashvals, dblist, threshold, ignore_abundance)`; `hashvals` is the
+    dict hash ↦ count -/
+def summarizeWith (look : Nat → List (List Lineage)) (hashvals : List (Nat × Nat)) (threshold : Nat)
+    (ignoreAbundance : Bool) : Except Lin.Err (List (Lineage × Nat)) :=
+  let asg := gatherWith look (keys hashvals)
+  let w := if ignoreAbundance || hashvals.isEmpty then none else some hashvals
+  match countLca asg w with
+  | .ok counts => .ok (aggregate counts threshold)
+  | .error e => .error e
+
+/-- `command_classify.classify_signature(query_sig, dblist, threshold, majority)` on the query's hashes -/
+def classifyWith (look : Nat → List (List Lineage)) (hashes : List Nat) (threshold : Nat) (majority : Bool) :
+    Except Lin.Err (Lineage × Status) :=
+  match countLca (gatherWith look hashes) none with
+  | .ok counts => .ok (classifyCounts counts threshold majority)
+  | .error e => .error e
+
 /-! ### the SQLite twin -/
 
 def MAX_SQLITE_INT : Nat := 2 ^ 63 - 1
@@ -266,8 +290,16 @@ def sqlTaxRow (l : Lineage) : List Nat := (l.map Prod.snd) ++ List.replicate (nR
 def sqlTaxLineage (row : List Nat) : Lineage :=
   (((List.range nRanks).zip row).reverse.dropWhile (fun p => p.2 == 0)).reverse
 
-/-- first element of `s.split(sep)` -/
-def splitHead (s : String) (sep : String) : String := (s.splitOn sep).headD ""
+/-- the characters before the first `c` (all of them when there is none): `s.split(c)[0]` on characters -/
+def headUntil (c : Char) : List Char → List Char
+  | [] => []
+  | x :: xs => if x = c then [] else x :: headUntil c xs
+
+/-- `name.split(" ")[0]` -/
+def firstWord (s : String) : String := String.ofList (headUntil ' ' s.toList)
+
+/-- `name.split(".")[0]` -/
+def dotPrefix (s : String) : String := String.ofList (headUntil '.' s.toList)
 
 structure BuildSt where
   identToIdx : List (String × Nat)
@@ -276,49 +308,67 @@ structure BuildSt where
   lineageToLid : List (Lineage × Nat)
   lidToLineage : List (Nat × Lineage)
 
+/-- `lineage_db.get(ident)` on the taxonomy table -/
+def taxLook (tax : List (String × List Nat)) (i : String) : Option Lineage := (get? tax i).map sqlTaxLineage
+
+/-- the identifier and lineage `_build_index` settles on for a (non-empty) signature name: first word
+    if a lineage is stored under it, otherwise the prefix before the first '.' -/
+def sqlIdentLineage (tax : List (String × List Nat)) (name : String) : String × Option Lineage :=
+  match taxLook tax (firstWord name) with
+  | some l => (firstWord name, some l)
+  | none => (dotPrefix name, taxLook tax (dotPrefix name))
+
+/-- `if lineage: lid = lineage_to_lid.get(lineage) ...; idx_to_lid[idx] = lid` -/
+def sqlAssign (st : BuildSt) (idx : Nat) (lineage : Option Lineage) : BuildSt :=
+  match lineage with
+  | none => st
+  | some [] => st
+  | some lin =>
+    match get? st.lineageToLid lin with
+    | some lid => { st with idxToLid := set st.idxToLid idx lid }
+    | none =>
+      { st with nextLid := st.nextLid + 1,
+                lineageToLid := set st.lineageToLid lin st.nextLid,
+                lidToLineage := set st.lidToLineage st.nextLid lin,
+                idxToLid := set st.idxToLid idx st.nextLid }
+
+/-- loop body of `LCA_SqliteDatabase._build_index` for one manifest row -/
+def sqlIndexStep (tax : List (String × List Nat)) (st : BuildSt) (row : Nat × String × List Nat) : BuildSt :=
+  if row.2.1 = "" then st
+  else
+    let il := sqlIdentLineage tax row.2.1
+    sqlAssign { st with identToIdx := set st.identToIdx il.1 row.1 } row.1 il.2
+
 /-- `LCA_SqliteDatabase._build_index` over the manifest rows, `tax` being the taxonomy table -/
 def sqlBuildIndex (tax : List (String × List Nat)) (rows : List (Nat × String × List Nat)) : BuildSt :=
-  rows.foldl (fun (st : BuildSt) (row : Nat × String × List Nat) =>
-    let name := row.2.1
-    if name = "" then st
-    else
-      let look := fun (i : String) => (get? tax i).map sqlTaxLineage
-      let ident1 := splitHead name " "
-      let (ident, lineage) := match look ident1 with
-        | some l => (ident1, some l)
-        | none => let ident2 := splitHead name "."; (ident2, look ident2)
-      let idx := row.1
-      let st := { st with identToIdx := set st.identToIdx ident idx }
-      match lineage with
-      | none => st
-      | some [] => st
-      | some lin =>
-        match get? st.lineageToLid lin with
-        | some lid => { st with idxToLid := set st.idxToLid idx lid }
-        | none =>
-          { st with nextLid := st.nextLid + 1,
-                    lineageToLid := set st.lineageToLid lin st.nextLid,
-                    lidToLineage := set st.lidToLineage st.nextLid lin,
-                    idxToLid := set st.idxToLid idx st.nextLid })
+  rows.foldl (sqlIndexStep tax)
     { identToIdx := [], nextLid := 0, idxToLid := [], lineageToLid := [], lidToLineage := [] }
+
+/-- consecutive row ids (`last_insert_rowid()` of successive `INSERT`s into a fresh table) -/
+def numberFrom {α : Type} : Nat → List α → List (Nat × α)
+  | _, [] => []
+  | k, x :: xs => (k, x) :: numberFrom (k + 1) xs
+
+/-- `save_to_sql`: ident ↦ lineage for the identifiers that have one -/
+def Db.sqlAssignments (db : Db) : List (String × Lineage) :=
+  db.identToIdx.foldl (fun a (p : String × Nat) =>
+    match get? db.idxToLid p.2 with
+    | none => a
+    | some lid => set a p.1 ((get? db.lidToLineage lid).getD [])) ([] : List (String × Lineage))
 
 /-- `LCA_Database.load(db.save(path, format="sql"))` -/
 def Db.toSql (db : Db) : Except Err SqlDb :=
   match db.signatures with
   | .error e => .error e
   | .ok sigs =>
-    -- save_to_sql: ident ↦ lineage for the idents that have one
-    let asg := db.identToIdx.foldl (fun a (p : String × Nat) =>
-      match get? db.idxToLid p.2 with
-      | none => a
-      | some lid => set a p.1 ((get? db.lidToLineage lid).getD [])) ([] : List (String × Lineage))
+    let asg := db.sqlAssignments
     if asg.any (fun p => p.2.length > nRanks) then .error .other
     else if sigs.isEmpty then .error .value
     else
       let tax := asg.map (fun p => (p.1, sqlTaxRow p.2))
       -- SqliteIndex.insert gives consecutive ids starting at 1 (an empty sketch gets a manifest row and no
       -- hash rows); hashes pass a MinHash at the stored scaled
-      let rows := sigs.zipIdx.map (fun (q : (Nat × String × List Nat) × Nat) => (q.2 + 1, q.1.2.1, q.1.2.2))
+      let rows := (numberFrom 1 sigs).map (fun (q : Nat × Nat × String × List Nat) => (q.1, q.2.2.1, q.2.2.2))
       let st := sqlBuildIndex tax rows
       .ok { ksize := db.ksize, moltype := db.moltype, scaled := db.scaled, storedScaled := db.scaled,
             rows := rows, identToIdx := st.identToIdx, idxToLid := st.idxToLid,
